@@ -1170,9 +1170,22 @@ func (p *Path) newByteVar(dom string) *Var {
 		// domain constraint for the solver
 		// the domain constraint is constantly true on the domain, so it must bypass
 		// folding and the fast path: it exists only for the solver.
+		// as few range tests as the (sorted) domain allows
 		var alts []*Term
-		for _, d := range v.Dom {
-			alts = append(alts, p.tt().mkRaw(&Term{Op: OpEq, S: BoolSort, Args: []*Term{v.T, p.tt().Const(BV(8), d)}}))
+		tt := p.tt()
+		for i := 0; i < len(v.Dom); {
+			j := i
+			for j+1 < len(v.Dom) && v.Dom[j+1] == v.Dom[j]+1 {
+				j++
+			}
+			if i == j {
+				alts = append(alts, tt.mkRaw(&Term{Op: OpEq, S: BoolSort, Args: []*Term{v.T, tt.Const(BV(8), v.Dom[i])}}))
+			} else {
+				alts = append(alts, tt.mkRaw(&Term{Op: OpAnd, S: BoolSort, Args: []*Term{
+					tt.mkRaw(&Term{Op: OpUle, S: BoolSort, Args: []*Term{tt.Const(BV(8), v.Dom[i]), v.T}}),
+					tt.mkRaw(&Term{Op: OpUle, S: BoolSort, Args: []*Term{v.T, tt.Const(BV(8), v.Dom[j])}})}}))
+			}
+			i = j + 1
 		}
 		var dc *Term
 		if len(alts) == 1 {
